@@ -97,7 +97,7 @@ func (e *Eng) collectObjTypes() {
 			}
 			visit(u.Elem(), inStruct)
 		case *types.Struct:
-			if n, ok := t.(*types.Named); ok && n.Obj().Pkg() != nil && strings.HasPrefix(n.Obj().Pkg().Path(), modPath) && n.TypeArgs() == nil {
+			if n, ok := t.(*types.Named); ok && n.Obj().Pkg() != nil && strings.HasPrefix(n.Obj().Pkg().Path(), modPath) {
 				sk := types.TypeString(t, nil)
 				if _, ok := o.skeys[sk]; !ok {
 					o.skeys[sk] = len(o.structs)
